@@ -126,7 +126,7 @@ def check_histories(rep, fsdbh, cases, mode="inline", known_d7=False, oracle="sp
             st.impl_model_mismatch += 1
             if reported < max_report:
                 reported += 1
-                investigate(rep, fsdbh, c, mode, oracle, known_d7, correspondence)
+                investigate(rep, fsdbh, c, mode, oracle, known_d7, correspondence, observed=impl[k])
             continue
         # impl == model here; property oracle on the implementation's own output
         if usable:
@@ -148,8 +148,11 @@ def check_histories(rep, fsdbh, cases, mode="inline", known_d7=False, oracle="sp
     return st
 
 
-def investigate(rep, fsdbh, case, mode, oracle, known_d7, correspondence):
-    """impl != model on this case: shrink, then look for a concrete failing input with the spec oracle"""
+def investigate(rep, fsdbh, case, mode, oracle, known_d7, correspondence, observed=None):
+    """impl != model on this case: shrink, then look for a concrete failing input with the spec oracle.  The implementation
+    may be nondeterministic (Go map iteration order decides which key a loop visits last): a candidate counts as failing
+    if one of three runs fails, and when the shrunk case does not fail again the ORIGINAL history with the outputs that were
+    observed is the replay (a concrete failing history, reproduced with some probability)."""
     def run3(c):
         i = run_sharded(fsdbh, "hist", [c], extra=[mode], shards=1)[0]
         m = canon(c, run_model("hist", [c])[0])
@@ -157,18 +160,33 @@ def investigate(rep, fsdbh, case, mode, oracle, known_d7, correspondence):
         return i, m, s
 
     def mismatch(c):
-        i, m, _ = run3(c)
-        if any(l.startswith("BAD-") or l.startswith("NO-DB") for l in i):
-            return False          # shrinking removed a Begin: not a valid case any more
-        return i != m
+        for _ in range(3):
+            i, m, _ = run3(c)
+            if any(l.startswith("BAD-") or l.startswith("NO-DB") for l in i):
+                return False          # shrinking removed a Begin: not a valid case any more
+            if i != m:
+                return True
+        return False
     try:
         small = shrink_case(case, mismatch)
     except C.CheckBroken:
         small = case
-    i, m, s = run3(small)
+    flaky = None
+    for attempt in range(6):
+        i, m, s = run3(small)
+        if i != m:
+            break
+    else:
+        if observed is not None:
+            # not reproduced: report the history as it was observed
+            _, m, s = run3(case)
+            small, i, flaky = case, observed, "the failure is nondeterministic: 6 re-runs of the shrunk history agreed with the model; " \
+                                              "impl = the outputs observed in the original run"
     H, auto = run_flags([small])[0]
     payload = dict(kind="correspondence", correspondence=correspondence, case=small, impl=i, model=m, spec=s,
                    mode=mode, hypothesis_H=H, original_case=case if len(case) < 6000 else case[:6000] + "\n...")
+    if flaky:
+        payload["nondeterministic"] = flaky
     d = first_diff(i, s)
     usable = H if oracle == "spec" else auto
     if d is not None and (usable or not (known_d7 and is_late_write_divergence(small, i, s, d))):
